@@ -722,6 +722,21 @@ func mayBeNonNil(v ssa.Value, useBlock, pred *ssa.BasicBlock) bool {
 		return false
 	case *ssa.MakeInterface:
 		return true
+	case *ssa.Extract:
+		// result of a local function all of whose exits return the nil constant at that position
+		if c, ok := x.Tuple.(*ssa.Call); ok {
+			if g := c.Call.StaticCallee(); g != nil && g.Blocks != nil {
+				for _, ret := range returnsOf(g) {
+					if g.Recover != nil && ret.Block() == g.Recover {
+						continue
+					}
+					if !isNilConst(resultOf(ret, x.Index)) {
+						return true
+					}
+				}
+				return false
+			}
+		}
 	}
 	return true
 }
